@@ -510,6 +510,11 @@ class _ChainedRunnerIterator(Iterable[_ValueT]):
           'chainable: %s', f'"{name}" iterator returned a {type(returned)}'
       )
       raise StopIteration(returned) if returned else e
+    except Exception:
+      # The upstream stages are not exhausted: without a stop their worker
+      # threads stay blocked on a queue nobody reads any more.
+      self.maybe_stop()
+      raise
 
   def __iter__(self) -> Iterator[_ValueT]:
     return self
